@@ -18,7 +18,9 @@ def sc(entry, name, bounds, tiers=("quick", "thorough"), K=90, eo=EO):
 
 T = ("thorough",)
 SCENARIOS = [
-    sc("VerifC09_S1x1_U1_B0", "C09.a 1 sender x1, 1 subscriber, unbuffered", "1 sender x 1 trace, 1 joining/leaving subscriber with buffer 0 taking 0..1", eo=EO[:2]),
+    sc("VerifC09_S1x1_U1_B0_T0", "C09.a 1 sender x1, subscriber joins and leaves at once, unbuffered", "1 sender x 1 trace, 1 subscriber with buffer 0 that subscribes and unsubscribes without taking anything", eo=EO[:2]),
+    sc("VerifC09_S1x1_U1_B0_T1", "C09.a 1 sender x1, subscriber joins, takes 1, leaves, unbuffered", "1 sender x 1 trace, 1 subscriber with buffer 0 that takes up to one trace before unsubscribing", eo=EO[:2]),
+    sc("VerifC09_S1x1_U1_B0", "C09.a 1 sender x1, 1 subscriber, unbuffered", "1 sender x 1 trace, 1 joining/leaving subscriber with buffer 0 taking 0..1 (solver's choice)", eo=EO[:2], tiers=T),
     sc("VerifC09_S1x1_U1_B1", "C09.a 1 sender x1, 1 subscriber, buffer 1", "1 sender x 1 trace, 1 joining/leaving subscriber with buffer 1 taking 0..1", eo=EO[:2], tiers=T),
     sc("VerifC09_S1x2_U0", "C09.a 1 sender x2", "1 sender x 2 traces, reference subscriber only", eo=EO[:2] + ["each sender's program order is preserved"]),
     sc("VerifC09_S2x1_U0", "C09.a 2 senders x1", "2 senders x 1 trace, reference subscriber only", eo=EO[:2]),
